@@ -11,5 +11,6 @@ rm -rf .build/gen.tmp && mkdir -p .build/gen.tmp
 .build/simgen -src "$REPO" -dst .build/gen.tmp/hagall -module github.com/aukilabs/hagall -skip-dirs cmd,smoketest,websocket/testing.go,docs -report .build/gen.tmp/hagall.report
 .build/simgen -src "$MC/github.com/aukilabs/hagall-common@v0.2.2" -dst .build/gen.tmp/hagall-common -module github.com/aukilabs/hagall-common -instrument websocket/msg.go -exclude-types protoTypeStore -report .build/gen.tmp/common.report
 .build/simgen -src "$MC/golang.org/x/net@v0.38.0" -dst .build/gen.tmp/xnet -module golang.org/x/net -instrument websocket/websocket.go,websocket/hybi.go,websocket/server.go -report .build/gen.tmp/xnet.report
+cp hooks/dagaz_export_verif.go .build/gen.tmp/hagall/modules/dagaz/zz_export_verif.go
 chmod -R u+w .build/gen.tmp
 rm -rf .build/gen && mv .build/gen.tmp .build/gen
